@@ -286,7 +286,19 @@ def strip_injected(staged, anns):
     return staged
 
 
+_stage_lock = __import__('threading').Lock()
+_stage_cache = {}
+
+
 def stage(harness, defines, ann_files, workdir, ops=None, incdirs=()):
+    with _stage_lock:
+        k = (harness, tuple(sorted(defines.items())), tuple(ann_files), repr(ops), workdir)
+        if k not in _stage_cache:
+            _stage_cache[k] = _stage(harness, defines, ann_files, workdir, ops, incdirs)
+        return _stage_cache[k]
+
+
+def _stage(harness, defines, ann_files, workdir, ops=None, incdirs=()):
     os.makedirs(workdir, exist_ok=True)
     key = hashlib.sha1(repr((harness, sorted(defines.items()), ann_files, ops)).encode()).hexdigest()[:12]
     raw = os.path.join(workdir, 'pp_%s.i' % key)
